@@ -135,6 +135,31 @@ Definition explicit_super (n : nsp) (inn : bool) (f : expr) (args : list expr) (
   | _, _, _ => ret None
   end.
 
+(* the names the clauses of a comprehension bind (asynchronous comprehensions are refused) *)
+Fixpoint gen_names (gs : list comprehension) : res (list ident) :=
+  match gs with
+  | [] => ret []
+  | (t, _, _, is_async) :: r =>
+      if is_async : bool then fail ERuntime
+      else let! a := target_names t in let! b := gen_names r in ret (a ++ b)
+  end.
+
+(* the clauses in order: iterable (the first one in the enclosing scope), target, conditions; [tf] is transf itself *)
+Section TGens.
+  Variable tf : list ident -> bool -> expr -> res expr.
+  Variables (bd : list ident) (inn : bool) (c : list ident).
+  Fixpoint tgens_go (gs : list comprehension) (first : bool) {struct gs} : res (list comprehension) :=
+    match gs with
+    | [] => ret []
+    | (t, i, ifs, a) :: r =>
+        let! i' := (if first then tf bd inn i else tf c true i) in
+        let! t' := tf c true t in
+        let! ifs' := rmap (tf c true) ifs in
+        let! r' := tgens_go r false in
+        ret ((t', i', ifs', a) :: r')
+    end.
+End TGens.
+
 Section Transf.
   Variable n : nsp.
 
@@ -143,26 +168,8 @@ Section Transf.
     let tl := fun c i l => rmap (transf c i) l in
     let topt := fun c i (o : option expr) =>
       match o with Some x => let! y := transf c i x in ret (Some y) | None => ret None end in
-    (* generators in order: iterable (the first one in the enclosing scope), target, conditions *)
     let tgens := fun (c : list ident) (gs : list comprehension) =>
-      (fix go (gs : list comprehension) (first : bool) : res (list comprehension) :=
-         match gs with
-         | [] => ret []
-         | (t, i, ifs, a) :: r =>
-             let! i' := (if first then transf bd inn i else transf c true i) in
-             let! t' := transf c true t in
-             let! ifs' := rmap (transf c true) ifs in
-             let! r' := go r false in
-             ret ((t', i', ifs', a) :: r')
-         end) gs true in
-    let gen_names := fun (gs : list comprehension) =>
-      (fix go (gs : list comprehension) : res (list ident) :=
-         match gs with
-         | [] => ret []
-         | (t, _, _, is_async) :: r =>
-             if is_async : bool then fail ERuntime        (* asynchronous comprehensions are refused *)
-             else let! a := target_names t in let! b := go r in ret (a ++ b)
-         end) gs in
+      tgens_go (fun c0 i0 e0 => transf c0 i0 e0) bd inn c gs true in
     match e with
     | Name i => get_load_name n bd inn i
     | NamedExpr t v =>
